@@ -185,7 +185,10 @@ def run_property(prop, tier, seed, only=None, e2_fn=None, keep=False):
     results, e2 = [], None
     notes = []
     try:
+        E.ACTIVE_PROP = prop
         crate, specs = E.build_overlay(scratch, sel)
+        for d in E.SCOPED_APPLIED:
+            notes.append("scoped overlay rewrite: " + d)
         if specs:
             symtabs, gen_s = E.kani_codegen(crate, scratch, os.path.join(scratch, "codegen.log"))
             notes.append(f"kani codegen {gen_s:.0f}s for {len(specs)} harnesses")
